@@ -37,35 +37,41 @@ def load_path(file_obj, file_type: Optional[str] = None, **kwargs):
 
     arg = _parse_file_args(file_obj=file_obj, file_type=file_type, **kwargs)
 
-    if isinstance(file_obj, Path):
-        # we have been passed a file object that is already a loaded
-        # trimesh.path.Path object so do nothing and return
-        return file_obj
-    elif util.is_file(arg.file_obj):
-        if arg.file_type in path_loaders:
-            kwargs.update(
-                path_loaders[arg.file_type](
-                    file_obj=arg.file_obj, file_type=arg.file_type
+    try:
+        if isinstance(file_obj, Path):
+            # we have been passed a file object that is already a loaded
+            # trimesh.path.Path object so do nothing and return
+            return file_obj
+        elif util.is_file(arg.file_obj):
+            if arg.file_type in path_loaders:
+                kwargs.update(
+                    path_loaders[arg.file_type](
+                        file_obj=arg.file_obj, file_type=arg.file_type
+                    )
                 )
-            )
-        elif arg.file_type == "ply":
-            # we cannot register this exporter to path_loaders since
-            # this is already reserved by Trimesh in ply format in trimesh.load()
-            kwargs.update(load_ply(file_obj=arg.file_obj, file_type=arg.file_type))
-    elif util.is_instance_named(file_obj, ["Polygon", "MultiPolygon"]):
-        # convert from shapely polygons to Path2D
-        kwargs.update(misc.polygon_to_path(file_obj))
-    elif util.is_instance_named(file_obj, "MultiLineString"):
-        # convert from shapely LineStrings to Path2D
-        kwargs.update(misc.linestrings_to_path(file_obj))
-    elif isinstance(file_obj, dict):
-        # load as kwargs
-        kwargs = file_obj
-    elif util.is_sequence(file_obj):
-        # load as lines in space
-        kwargs.update(misc.lines_to_path(file_obj))
-    else:
-        raise ValueError("Not a supported object type!")
+            elif arg.file_type == "ply":
+                # we cannot register this exporter to path_loaders since
+                # this is already reserved by Trimesh in ply format in trimesh.load()
+                kwargs.update(load_ply(file_obj=arg.file_obj, file_type=arg.file_type))
+        elif util.is_instance_named(file_obj, ["Polygon", "MultiPolygon"]):
+            # convert from shapely polygons to Path2D
+            kwargs.update(misc.polygon_to_path(file_obj))
+        elif util.is_instance_named(file_obj, "MultiLineString"):
+            # convert from shapely LineStrings to Path2D
+            kwargs.update(misc.linestrings_to_path(file_obj))
+        elif isinstance(file_obj, dict):
+            # load as kwargs
+            kwargs = file_obj
+        elif util.is_sequence(file_obj):
+            # load as lines in space
+            kwargs.update(misc.lines_to_path(file_obj))
+        else:
+            raise ValueError("Not a supported object type!")
+
+    finally:
+        # close any file we opened ourselves
+        if arg.was_opened:
+            arg.file_obj.close()
 
     # actually load
     result = _load_kwargs(kwargs)
